@@ -235,6 +235,21 @@ def explore_shard(acc, shard):
             acc.count("transitions")
             rec([first])
             acc.sample(layer, {"grid": grid, "first_event": evs[first], "example": TC.fmt_tl(TC.concretize(grid, (evs[first],), fam))})
+    elif kind == "special":
+        _, idx, thorough = shard
+        label, tl, beats = TC.special_timelines(thorough)[idx]
+        layer = "X special timelines"
+        case = {"kind": "timeline", "timeline": TC.fmt_tl(tl), "beats": [str(b) for b in beats], "free_points": ["3"], "exact": False, "label": label}
+        core.guard(acc, case)
+        fails = check_timeline(tl, beats, False, with_meta=True, free_points=[Fraction(3)])
+        acc.count("states")
+        acc.count("transitions")
+        acc.count("evaluations", len(beats) * 9 * 4)
+        acc.count("nontrivial")
+        acc.outcome("special timeline (crowded warp / long warp / far out / many digits)")
+        for f in fails:
+            acc.violation(f["clause"], case, f["expected"], f["observed"], signature=(f["clause"], "special"))
+        acc.sample(layer, {"label": label, "probe_beats": len(beats)})
     elif kind == "corpus":
         _, idx = shard
         name, tl, td = TC.corpus_timelines()[idx]
@@ -280,6 +295,7 @@ def explore(run):
     for i in range(4):
         shards.append(("sets", "coarse", "dyadic", i, 4 if run.thorough() else 2, run.seed, True))
     shards += [("corpus", i) for i in range(len(TC.corpus_timelines()))]
+    shards += [("special", i, run.thorough()) for i in range(len(TC.special_timelines(run.thorough())))]
     k = run.seed % len(shards)
     shards = shards[k:] + shards[:k]
     run.merge(core.pmap(explore_shard, shards, run.seed))
@@ -290,12 +306,14 @@ def explore(run):
         + "; ".join(f"{g}/{f}: <= {(t if run.thorough() else q)} events" for g, f, q, t in plan)
         + f"; x offsets {[str(o) for o in OFFSETS]}; each state queried at ~40 probe beats x 7 tags; metamorphic transitions: offset shift (2 shifts), redundant BPM change at every free grid point. "
         f"Dyadic BPM cycle chosen by seed: {[str(x) for x in TC.family('dyadic', run.seed)['bpms']]}. Non-trivial = at least two events."
+        + " X: hand-built special timelines - 3..7 (thorough 8) BPM changes with a stop and a delay inside one warp, warps of 8 and 20 beats, queries and events at beats 133..20000, BPMs 1, 2000, 1000.001, 128.010, 133.33333333, offsets of an hour."
     )
     run.assumptions = [
         "mc/models/timeline.py (exact rational evaluation) is the specification",
         "timing data in the stated domain: first BPM at beat 0, positive BPMs and pause lengths, tick-aligned sorted beats",
         "agreement to 1e-9 s; exact equality for metamorphic relations on dyadic values",
     ]
+    core.require(acc.outcomes["special timeline (crowded warp / long warp / far out / many digits)"] > 0, "no special timeline")
     core.require(acc.outcomes["warp shorter than half a tick"] > 0, "no tiny warp")
     core.require(acc.outcomes["pause together with a warp"] > 0, "no pause+warp timeline")
     core.require(acc.outcomes["several warps"] > 0, "no multi-warp timeline")
